@@ -368,4 +368,252 @@ theorem stmt_conv (F : FloatOps) (s : Compile.Stmt) (ρ : Compile.Env (coreSem F
     ∃ n ρ', Compile.evalS (coreSem F) n s ρ = .ok (sig, ρ') ∧ EnvRel ρ' st'.env :=
   (stmt_conv_upto F fuel).1 fuel (Nat.le_refl _) s ρ st st' r sig hw hr hev hs
 
+/-! ## the other direction: compiler model ⇒ guide -/
+
+theorem evalLoop_fuel_add' (F : FloatOps) (n : Nat) (c : Option (Expr × Bool)) (b : Expr) (acc : Val)
+    (s s' : St) (r : Res Val)
+    (h : evalLoop F n c b acc s = (r, s')) (hr : r ≠ .nofuel) (k : Nat) :
+    evalLoop F (n + k) c b acc s = (r, s') := by
+  induction k with
+  | zero => exact h
+  | succ k ih =>
+    rcases (fuel_mono_succ F (n + k)).2.2.2.2.2.2.1 c b acc s with ⟨s'', hs⟩ | heq
+    · rw [ih] at hs
+      simp only [Prod.mk.injEq] at hs
+      exact absurd hs.1 hr
+    · rw [← ih]; exact heq.symm
+
+theorem sigOf_ne_nofuel {r : Res Val} {sig : Compile.Sig} (h : sigOf r = some sig) : r ≠ .nofuel := by
+  intro hc; subst hc; simp [sigOf] at h
+
+theorem eval_fuel_le (F : FloatOps) {n m : Nat} {e : Expr} {s s' : St} {r : Res Val} {sig : Compile.Sig}
+    (h : eval F n e s = (r, s')) (hs : sigOf r = some sig) (hm : n ≤ m) : eval F m e s = (r, s') := by
+  obtain ⟨k, rfl⟩ : ∃ k, m = n + k := ⟨m - n, by omega⟩
+  exact eval_fuel_add' F _ _ _ _ _ h (sigOf_ne_nofuel hs) k
+
+theorem evalLoop_fuel_le (F : FloatOps) {n m : Nat} {c : Option (Expr × Bool)} {b : Expr} {acc : Val}
+    {s s' : St} {r : Res Val} {sig : Compile.Sig}
+    (h : evalLoop F n c b acc s = (r, s')) (hs : sigOf r = some sig) (hm : n ≤ m) :
+    evalLoop F m c b acc s = (r, s') := by
+  obtain ⟨k, rfl⟩ : ∃ k, m = n + k := ⟨m - n, by omega⟩
+  exact evalLoop_fuel_add' F _ _ _ _ _ _ _ h (sigOf_ne_nofuel hs) k
+
+/-- the last step of a two-expression block hands the second result through -/
+theorem seq_ret {rb : Res Val} {sb : St} {sig : Compile.Sig} (h : sigOf rb = some sig) :
+    ∃ r, (seq (rb, sb) fun v s => ((.ok v : Res Val), s)) = (r, sb) ∧ sigOf r = some sig := by
+  cases rb with
+  | ok v => exact ⟨.ok v, rfl, h⟩
+  | brk v => exact ⟨.brk v, rfl, h⟩
+  | cont => exact ⟨.cont, rfl, h⟩
+  | err e => simp [sigOf] at h
+  | nofuel => simp [sigOf] at h
+
+/-- the loop header on the guide's side: with enough fuel, `evalLoop` evaluates the condition as
+`evalCond` does and then either runs the body or ends the loop -/
+theorem hdr_fwd (F : FloatOps) (cond : Option (Compile.Expr × Bool)) (b : Compile.Stmt) (b' : Expr)
+    (ρ ρ1 : Compile.Env (coreSem F)) (st : St) (go : Bool)
+    (hw : wfS (.loop cond b) = true) (hr : EnvRel ρ st.env)
+    (h : Compile.evalCond (coreSem F) cond ρ = some (go, ρ1)) :
+    ∃ s1 M, EnvRel ρ1 s1.env ∧ ∀ N, M ≤ N → ∀ acc,
+      evalLoop F (N + 1) (coreCond cond) b' acc st =
+        if go then loopStep (eval F N b' s1) (fun v s => evalLoop F N (coreCond cond) b' v s)
+        else (.ok acc, s1) := by
+  cases cond with
+  | none =>
+    simp only [Compile.evalCond, Option.some.injEq, Prod.mk.injEq] at h
+    obtain ⟨rfl, rfl⟩ := h
+    exact ⟨st, 0, hr, fun N _ acc => by simp only [coreCond, evalLoop_none, if_true]⟩
+  | some p =>
+    obtain ⟨c, neg⟩ := p
+    have hwc : wfE c = true := by simp only [wfS, Bool.and_eq_true] at hw; exact hw.1
+    simp only [Compile.evalCond] at h
+    cases hv : Compile.eval (coreSem F) c ρ with
+    | none => simp [hv] at h
+    | some q =>
+      obtain ⟨v, ρ2⟩ := q
+      simp only [hv, Option.some.injEq, Prod.mk.injEq] at h
+      obtain ⟨rfl, rfl⟩ := h
+      obtain ⟨s1, h1, h2, _⟩ := bridge_fwd F c ρ ρ2 st v hwc hr hv
+      refine ⟨s1, need c, h2, fun N hN acc => ?_⟩
+      simp only [coreCond, evalLoop_cond, h1 N hN, seq]
+
+/-- the statement proved for every `evalS` fuel `n`, for statements and for loops with an
+arbitrary value-so-far -/
+def FwdAt (F : FloatOps) (n : Nat) : Prop :=
+  (∀ (s : Compile.Stmt) (ρ ρ' : Compile.Env (coreSem F)) (sig : Compile.Sig) (st : St),
+      wfS s = true → EnvRel ρ st.env → Compile.evalS (coreSem F) n s ρ = .ok (sig, ρ') →
+      ∃ fuel r st', Core.eval F fuel (toCoreS s) st = (r, st') ∧ sigOf r = some sig ∧ EnvRel ρ' st'.env) ∧
+  (∀ (cond : Option (Compile.Expr × Bool)) (b : Compile.Stmt) (acc : Val)
+      (ρ ρ' : Compile.Env (coreSem F)) (sig : Compile.Sig) (st : St),
+      wfS (.loop cond b) = true → EnvRel ρ st.env →
+      Compile.evalS (coreSem F) n (.loop cond b) ρ = .ok (sig, ρ') →
+      ∃ fuel r st', evalLoop F fuel (coreCond cond) (toCoreS b) acc st = (r, st') ∧ sigOf r = some sig ∧
+        EnvRel ρ' st'.env)
+
+theorem stmt_fwd_at (F : FloatOps) : ∀ n, FwdAt F n := by
+  intro n
+  induction n with
+  | zero =>
+    constructor
+    · intro s ρ ρ' sig st _ _ h; simp [Compile.evalS] at h
+    · intro cond b acc ρ ρ' sig st _ _ h; simp [Compile.evalS] at h
+  | succ n ih =>
+    have hloop : ∀ (cond : Option (Compile.Expr × Bool)) (b : Compile.Stmt) (acc : Val)
+        (ρ ρ' : Compile.Env (coreSem F)) (sig : Compile.Sig) (st : St),
+        wfS (.loop cond b) = true → EnvRel ρ st.env →
+        Compile.evalS (coreSem F) (n + 1) (.loop cond b) ρ = .ok (sig, ρ') →
+        ∃ fuel r st', evalLoop F fuel (coreCond cond) (toCoreS b) acc st = (r, st') ∧ sigOf r = some sig ∧
+          EnvRel ρ' st'.env := by
+      intro cond b acc ρ ρ' sig st hw hr h
+      have hwb := wfS_loop_body hw
+      rw [Compile.evalS_loop] at h
+      cases hcnd : Compile.evalCond (coreSem F) cond ρ with
+      | none => simp [hcnd] at h
+      | some p =>
+        obtain ⟨go, ρ1⟩ := p
+        obtain ⟨s1, M, hr1, hM⟩ := hdr_fwd F cond b (toCoreS b) ρ ρ1 st go hw hr hcnd
+        cases go with
+        | false =>
+          simp only [hcnd, Compile.Res.ok.injEq, Prod.mk.injEq] at h
+          obtain ⟨rfl, rfl⟩ := h
+          exact ⟨M + 1, .ok acc, s1, by rw [hM M (Nat.le_refl _) acc]; rfl, rfl, hr1⟩
+        | true =>
+          simp only [hcnd] at h
+          rcases Compile.Res.loopNext_ok h with ⟨rfl, h1⟩ | ⟨sg, ρ2, hsg, h1, h2⟩
+          · obtain ⟨fb, rb, sb, e1, g1, r1⟩ := ih.1 b ρ1 ρ' .brk s1 hwb hr1 h1
+            have e1' := eval_fuel_le F e1 g1 (Nat.le_max_right M fb)
+            cases rb with
+            | brk v =>
+              refine ⟨max M fb + 1, .ok v, sb, ?_, rfl, r1⟩
+              rw [hM _ (Nat.le_max_left M fb) acc]
+              simp only [if_true, e1', loopStep]
+            | ok v => simp [sigOf] at g1
+            | cont => simp [sigOf] at g1
+            | err e => simp [sigOf] at g1
+            | nofuel => simp [sigOf] at g1
+          · obtain ⟨fb, rb, sb, e1, g1, r1⟩ := ih.1 b ρ1 ρ2 sg s1 hwb hr1 h1
+            -- the value the guide's loop carries on with
+            have hnext : ∃ w, ∀ (k : Val → St → Res Val × St), loopStep (rb, sb) k = k w sb := by
+              cases rb with
+              | ok v => exact ⟨v, fun _ => rfl⟩
+              | cont => exact ⟨.null, fun _ => rfl⟩
+              | brk v => simp only [sigOf, Option.some.injEq] at g1; exact absurd g1.symm hsg
+              | err e => simp [sigOf] at g1
+              | nofuel => simp [sigOf] at g1
+            obtain ⟨w, hwk⟩ := hnext
+            obtain ⟨fl, r, st', e2, g2, r2⟩ := ih.2 cond b w ρ2 ρ' sig sb hw r1 h2
+            let N := max M (max fb fl)
+            have e1' := eval_fuel_le F e1 g1 (show fb ≤ N by omega)
+            have e2' := evalLoop_fuel_le F e2 g2 (show fl ≤ N by omega)
+            refine ⟨N + 1, r, st', ?_, g2, r2⟩
+            rw [hM N (by omega) acc]
+            simp only [if_true, e1', hwk]
+            exact e2'
+    refine ⟨?_, hloop⟩
+    intro s ρ ρ' sig st hw hr h
+    cases s with
+    | expr e =>
+      simp only [wfS] at hw
+      rw [Compile.evalS_expr] at h
+      cases he : Compile.eval (coreSem F) e ρ with
+      | none => simp [he] at h
+      | some p =>
+        obtain ⟨v, ρ1⟩ := p
+        simp only [he, Compile.Res.ok.injEq, Prod.mk.injEq] at h
+        obtain ⟨rfl, rfl⟩ := h
+        obtain ⟨st', h1, h2, _⟩ := bridge_fwd F e ρ ρ1 st v hw hr he
+        exact ⟨need e, .ok v, st', h1 _ (Nat.le_refl _), rfl, h2⟩
+    | brk =>
+      simp only [Compile.evalS_brk, Compile.Res.ok.injEq, Prod.mk.injEq] at h
+      obtain ⟨rfl, rfl⟩ := h
+      exact ⟨1, .brk .null, st, by simp [toCoreS, eval], rfl, hr⟩
+    | cont =>
+      simp only [Compile.evalS_cont, Compile.Res.ok.injEq, Prod.mk.injEq] at h
+      obtain ⟨rfl, rfl⟩ := h
+      exact ⟨1, .cont, st, by simp [toCoreS, eval], rfl, hr⟩
+    | seq a b =>
+      simp only [wfS, Bool.and_eq_true] at hw
+      rw [Compile.evalS_seq] at h
+      rcases Compile.Res.andThen_ok h with ⟨ρ1, h1, h2⟩ | ⟨hne, h1⟩
+      · obtain ⟨fa, ra, sa, e1, g1, r1⟩ := ih.1 a ρ ρ1 .normal st hw.1 hr h1
+        obtain ⟨fb, rb, sb, e2, g2, r2⟩ := ih.1 b ρ1 ρ' sig sa hw.2 r1 h2
+        cases ra with
+        | ok va =>
+          let N := max fa fb
+          have e1' := eval_fuel_le F e1 g1 (show fa ≤ N + 2 by omega)
+          have e2' := eval_fuel_le F e2 g2 (show fb ≤ N + 1 by omega)
+          obtain ⟨r, hr', gr⟩ := seq_ret (sb := sb) g2
+          refine ⟨N + 4, r, sb, ?_, gr, r2⟩
+          simp only [toCoreS]
+          rw [eval_block2, e1']
+          simp only [seq]
+          rw [e2']
+          exact hr'
+        | brk v => simp [sigOf] at g1
+        | cont => simp [sigOf] at g1
+        | err e => simp [sigOf] at g1
+        | nofuel => simp [sigOf] at g1
+      · obtain ⟨fa, ra, sa, e1, g1, r1⟩ := ih.1 a ρ ρ' sig st hw.1 hr h1
+        have e1' := eval_fuel_le F e1 g1 (show fa ≤ fa + 2 by omega)
+        refine ⟨fa + 4, ra, sa, ?_, g1, r1⟩
+        simp only [toCoreS]
+        rw [eval_block2, e1']
+        cases ra with
+        | ok v => simp only [sigOf, Option.some.injEq] at g1; exact absurd g1.symm hne
+        | brk v => rfl
+        | cont => rfl
+        | err e => simp [sigOf] at g1
+        | nofuel => simp [sigOf] at g1
+    | ite c t e =>
+      simp only [wfS, Bool.and_eq_true] at hw
+      rw [Compile.evalS_ite] at h
+      cases hv : Compile.eval (coreSem F) c ρ with
+      | none => simp [hv] at h
+      | some p =>
+        obtain ⟨v, ρ1⟩ := p
+        simp only [hv] at h
+        obtain ⟨s1, c1, c2, _⟩ := bridge_fwd F c ρ ρ1 st v hw.1.1 hr hv
+        by_cases htr : v.truthy = true
+        · simp only [htr, if_true] at h
+          obtain ⟨ft, r, st', e1, g1, r1⟩ := ih.1 t ρ1 ρ' sig s1 hw.1.2 c2 h
+          refine ⟨max (need c) ft + 1, r, st', ?_, g1, r1⟩
+          simp only [toCoreS, eval_ifElse', c1 _ (Nat.le_max_left _ _), seq, htr, if_true]
+          exact eval_fuel_le F e1 g1 (Nat.le_max_right _ _)
+        · simp only [htr, Bool.false_eq_true, if_false] at h
+          obtain ⟨fe, r, st', e1, g1, r1⟩ := ih.1 e ρ1 ρ' sig s1 hw.2 c2 h
+          refine ⟨max (need c) fe + 1, r, st', ?_, g1, r1⟩
+          simp only [toCoreS, eval_ifElse', c1 _ (Nat.le_max_left _ _), seq, htr, Bool.false_eq_true, if_false]
+          exact eval_fuel_le F e1 g1 (Nat.le_max_right _ _)
+    | ifThen c t =>
+      simp only [wfS, Bool.and_eq_true] at hw
+      rw [Compile.evalS_ifThen] at h
+      cases hv : Compile.eval (coreSem F) c ρ with
+      | none => simp [hv] at h
+      | some p =>
+        obtain ⟨v, ρ1⟩ := p
+        simp only [hv] at h
+        obtain ⟨s1, c1, c2, _⟩ := bridge_fwd F c ρ ρ1 st v hw.1 hr hv
+        by_cases htr : v.truthy = true
+        · simp only [htr, if_true] at h
+          obtain ⟨ft, r, st', e1, g1, r1⟩ := ih.1 t ρ1 ρ' sig s1 hw.2 c2 h
+          refine ⟨max (need c) ft + 1, r, st', ?_, g1, r1⟩
+          simp only [toCoreS, eval_ifThen, c1 _ (Nat.le_max_left _ _), seq, htr, if_true]
+          exact eval_fuel_le F e1 g1 (Nat.le_max_right _ _)
+        · simp only [htr, Bool.false_eq_true, if_false, Compile.Res.ok.injEq, Prod.mk.injEq] at h
+          obtain ⟨rfl, rfl⟩ := h
+          refine ⟨need c + 1, .ok .null, s1, ?_, rfl, c2⟩
+          simp only [toCoreS, eval_ifThen, c1 _ (Nat.le_refl _), seq, htr, Bool.false_eq_true, if_false]
+    | loop cond b =>
+      obtain ⟨fl, r, st', e1, g1, r1⟩ := hloop cond b .null ρ ρ' sig st hw hr h
+      exact ⟨fl + 1, r, st', by rw [eval_toCoreS_loop]; exact e1, g1, r1⟩
+
+/-- **compiler model ⇒ guide, statements.** A finished `evalS (coreSem F)` evaluation is a finished
+evaluation of the embedded statement by the reference semantics of the guide, with the same signal
+and a related final environment. -/
+theorem stmt_fwd (F : FloatOps) (s : Compile.Stmt) (ρ ρ' : Compile.Env (coreSem F)) (st : St)
+    (n : Nat) (sig : Compile.Sig) (hw : wfS s = true) (hr : EnvRel ρ st.env)
+    (hev : Compile.evalS (coreSem F) n s ρ = .ok (sig, ρ')) :
+    ∃ fuel r st', Core.eval F fuel (toCoreS s) st = (r, st') ∧ sigOf r = some sig ∧ EnvRel ρ' st'.env :=
+  (stmt_fwd_at F n).1 s ρ ρ' sig st hw hr hev
+
 end KotoVerif.C01
